@@ -20,6 +20,7 @@ import Blots.Model.Cli
 import Blots.Model.Builtins
 import Blots.Model.Eval
 import Blots.Model.Ident
+import Blots.Model.ExprPeg
 import Blots.Gen.Prec
 import Blots.Gen.Builtins
 import Blots.Gen.Reserved
@@ -31,3 +32,4 @@ import Blots.Drv.NumText
 import Blots.Drv.Units
 import Blots.Drv.Json
 import Blots.Drv.Ident
+import Blots.Drv.ExprPeg
